@@ -276,6 +276,37 @@ theorem C16_atten_arasim_pos (z f : ℝ) (hz : (-2850 : ℝ) ≤ z) : 100 < atte
     (by simp [ara_depths]) arasim_last (by linarith)
   linarith [arasim_bound]
 
+private theorem arasim_bound0 : (0 : ℝ) < IceTable.lastBound ara_depths ara_lengths 3171 := by
+  norm_num [IceTable.lastBound, ara_depths, ara_lengths, interpSeg]
+
+private theorem arasim_last0 : IceTable.lastKnot ara_depths ≤ 3171 := by
+  norm_num [IceTable.lastKnot, ara_depths]
+
+/-- … and it stays positive for another 321 m below the valid range: for every depth `z ≥ −3171 m` -/
+theorem C16_atten_arasim_pos_extended (z f : ℝ) (hz : (-3171 : ℝ) ≤ z) : 0 < attenArasim z f := by
+  unfold attenArasim
+  have h := IceTable.interp_ge_lastBound ara_depths ara_lengths 3171 (-z) arasim_good
+    (by simp [ara_depths]) arasim_last0 (by linarith)
+  linarith [arasim_bound0]
+
+/-- The positivity clause is FALSE of the AraSim model far below its range (known finding K20): the
+table is extrapolated linearly (`fill_value="extrapolate"`), the last segment has negative slope, and
+for every depth `z ≤ −3172 m` (322 m below the valid range) the attenuation "length" is negative.
+Together with `C16_atten_arasim_pos_extended` this locates the sign change between −3172 m and
+−3171 m; the implementation returns the same values (−9.39 m at −3200 m). -/
+theorem C16_atten_arasim_negative_far_below_range (z f : ℝ) (hz : z ≤ (-3172 : ℝ)) :
+    attenArasim z f < 0 := by
+  unfold attenArasim
+  have hk : IceTable.lastKnot ara_depths ≤ -z := by
+    have : IceTable.lastKnot ara_depths ≤ 3171 := arasim_last0
+    linarith
+  rw [IceTable.interp_eq_lastBound ara_depths ara_lengths (-z) arasim_good (by simp [ara_depths]) hk]
+  have hx : (3172 : ℝ) ≤ -z := by linarith
+  norm_num [IceTable.lastBound, ara_depths, ara_lengths, interpSeg]
+  nlinarith
+
+example : attenArasim (-3200) 3e8 < 0 := C16_atten_arasim_negative_far_below_range _ _ (by norm_num)
+
 /-! non-vacuity: the shipped Antarctic parameters meet the hypotheses -/
 private def antarctic : Ice := ⟨1.78, 0.43, 0.0132, -2850, 0, some 1, none⟩
 example : 0 < antarctic.k ∧ 0 < antarctic.a ∧ antarctic.lo ≤ antarctic.hi := by
